@@ -16,6 +16,8 @@ REL = {
 def main():
     only = sys.argv[1:]
     results = {}
+    if only and os.path.exists("/verif/refactors/RESULTS.json"):
+        results = json.load(open("/verif/refactors/RESULTS.json"))  # a partial run updates the stored results
     for diff in sorted(glob.glob("/verif/refactors/*.diff")):
         name = os.path.basename(diff)[:-5]
         if only and name not in only:
